@@ -1940,10 +1940,324 @@ Plan gen_C16(std::uint64_t seed, int tier) {
 
 } // namespace
 
+// ---------------------------------------------------------------------------
+// C12: static offsets. One registry on a baseline policy (stock debug or
+// release shape, offsets read at run time) and on its twin whose methods all
+// have static_offsets<> specialisations; after every update of the twin the
+// real generator runs and its text is "compiled in". Faults: the header is
+// not regenerated after the registrations changed (stale), or was generated
+// from other registrations (one entry perturbed); the checked twin must then
+// reject every call of the methods concerned. A final regeneration makes the
+// last tables comparable with the baseline's (flavour differential).
+Plan gen_C12(std::uint64_t seed, int tier) {
+    Gen g(seed, tier);
+    g.p.prop = "C12";
+    g.p.profile = "static-offsets";
+    g.p.diff = "flavours";
+    bool checked = g.r.chance(0.65);
+    std::vector<std::string> pool = {
+        g.r.chance(0.5) ? "sdbg" : "srel", checked ? "sofd" : "sofr"};
+    if (g.r.chance(0.15))
+        pool.push_back(checked ? "sofr" : "sofd");
+    int np = (int)pool.size();
+    g.p.pols = pool;
+    auto is_sof = [&](int pi) { return pool[pi][1] == 'o'; };
+    BasicOpts o;
+    o.max_alias = 1;
+    o.max_cls = tier ? 14 : 9;
+    // every arity; multi-methods more often (they have strides)
+    o.slots = {0, 1, 2, 3, 4, 5, 6, 7, 8, 9, 10, 11, 12, 13, 14, 15, 16, 17,
+               18, 19, 4, 6, 7, 8, 9, 10, 12, 13, 16, 17, 19, 8, 9, 10};
+    basic_world(g, o, false);
+    int style = g.r.chance(0.5) ? (int)g.r.below(ST_COUNT) : -1;
+    std::vector<int> base, later;
+    std::set<int> used;
+    auto fresh_slot = [&]() {
+        for (int tries = 0; tries < 100; ++tries) {
+            int sl = o.slots[g.r.below(o.slots.size())];
+            if (used.insert(sl).second)
+                return sl;
+        }
+        return -1;
+    };
+    {
+        auto cr = g.class_recs(0, style, false);
+        for (auto& v : cr)
+            for (int ri : v)
+                base.push_back(ri);
+        int nm = g.r.range(1, 4);
+        for (int k = 0; k < nm; ++k) {
+            int sl = fresh_slot();
+            if (sl < 0)
+                break;
+            int mi = g.method(0, sl, o.root_bias);
+            base.push_back(mi);
+            for (int di : g.defs(0, mi, g.r.range(0, 6), o.focus))
+                base.push_back(di);
+        }
+    }
+    bool history = g.r.chance(0.6);
+    if (history) {
+        int nm = g.r.range(1, 3);
+        for (int k = 0; k < nm; ++k) {
+            int sl = fresh_slot();
+            if (sl < 0)
+                break;
+            int mi = g.method(0, sl, o.root_bias);
+            later.push_back(mi);
+            for (int di : g.defs(0, mi, g.r.range(0, 4), o.focus))
+                later.push_back(di);
+        }
+    }
+    std::vector<std::vector<int>> per_pol(np), later_pol(np);
+    per_pol[0] = base;
+    later_pol[0] = later;
+    for (int pi = 1; pi < np; ++pi) {
+        std::map<int, int> remap;
+        for (int phase = 0; phase < 2; ++phase)
+            for (int ri : phase ? later : base) {
+                Rec c = g.p.recs[ri];
+                c.pol = pi;
+                if (c.kind == RK_DEF)
+                    c.meth = remap[c.meth];
+                remap[ri] = g.add(c);
+                (phase ? later_pol : per_pol)[pi].push_back(remap[ri]);
+            }
+    }
+    auto offsets = [&](int pi) -> Event& {
+        Event e;
+        e.op = OP_OFFSETS;
+        e.pol = pi;
+        e.per_method = g.r.chance(0.5);
+        g.p.events.push_back(e);
+        return g.p.events.back();
+    };
+    auto methods_of = [&](int pi, bool with_later) {
+        std::vector<int> v;
+        for (int ri : per_pol[pi])
+            if (g.p.recs[ri].kind == RK_METHOD)
+                v.push_back(ri);
+        if (with_later)
+            for (int ri : later_pol[pi])
+                if (g.p.recs[ri].kind == RK_METHOD)
+                    v.push_back(ri);
+        return v;
+    };
+    auto perturb = [&](int pi, bool with_later) {
+        auto ms = methods_of(pi, with_later);
+        if (ms.empty())
+            return;
+        Event& e = offsets(pi);
+        e.meth = ms[g.r.below(ms.size())];
+        e.ppos = (int)g.r.below(16);
+        static const long long deltas[] = {1, 1, -1, 2, 7, -3, 1000};
+        e.pdelta = deltas[g.r.below(7)];
+        e.stale = g.r.chance(0.3);
+    };
+    std::uint64_t oseed = g.r.next();
+    {
+        Rng keep = g.r;
+        for (int pi = 0; pi < np; ++pi) {
+            g.r = Rng(oseed); // the same order under every flavour
+            g.ev_load(g.order(per_pol[pi]));
+        }
+        g.r = keep;
+    }
+    std::uint64_t sample = g.r.next();
+    int nup = g.r.range(1, 2);
+    for (int pi = 0; pi < np; ++pi) {
+        for (int u = 0; u < nup; ++u)
+            g.ev_update(pi);
+        if (is_sof(pi))
+            offsets(pi);
+        auto& ck = g.ev_check(pi, ROUTES_BASIC);
+        ck.sample_seed = sample;
+        if (pool[pi] == "sofd" && g.r.chance(0.3)) {
+            perturb(pi, false);
+            g.ev_check(pi, ROUTES_BASIC).sample_seed = sample;
+            offsets(pi); // regenerate: accepted again
+            g.ev_check(pi, ROUTES_BASIC).sample_seed = sample;
+        }
+    }
+    if (history) {
+        std::vector<std::size_t> gone;
+        for (std::size_t k = 0; k < base.size(); ++k)
+            if (g.p.recs[base[k]].kind == RK_DEF && g.r.chance(0.25))
+                gone.push_back(k);
+        std::uint64_t sample2 = g.r.next();
+        std::uint64_t oseed2 = g.r.next();
+        for (int pi = 0; pi < np; ++pi) {
+            std::vector<int> un;
+            for (auto k : gone)
+                un.push_back(per_pol[pi][k]);
+            if (!un.empty())
+                g.ev_unload(un);
+            Rng keep = g.r;
+            g.r = Rng(oseed2);
+            auto ord = g.order(later_pol[pi]);
+            g.r = keep;
+            g.ev_load(ord);
+        }
+        for (int pi = 0; pi < np; ++pi) {
+            g.ev_update(pi);
+            if (is_sof(pi)) {
+                if (pool[pi] == "sofd" && g.r.chance(0.35)) {
+                    // the header of the previous build is still in use
+                    Event& e = offsets(pi);
+                    e.stale = 1;
+                    g.ev_check(pi, ROUTES_BASIC).sample_seed = sample2;
+                } else if (pool[pi] == "sofd" && g.r.chance(0.25)) {
+                    offsets(pi);
+                    perturb(pi, true);
+                    g.ev_check(pi, ROUTES_BASIC).sample_seed = sample2;
+                }
+                offsets(pi);
+            }
+            auto& ck = g.ev_check(pi, ROUTES_BASIC);
+            ck.sample_seed = sample2;
+        }
+    }
+    g.p.heap_jitter = g.r.chance(0.3) ? (int)g.r.below(40) : 0;
+    return g.p;
+}
+
+// ---------------------------------------------------------------------------
+// C13: encode / decode. A generator process (any load / unload / update
+// history, the last update is encoded) and a consumer process holding the same
+// registrations in the same catalog order, which decodes instead of updating.
+Plan gen_C13(std::uint64_t seed, int tier) {
+    Rng r(seed ^ 0xC13);
+    Plan p;
+    BasicOpts o;
+    o.pols = {"sdbg", "srel"};
+    o.max_alias = 1;
+    o.max_cls = tier ? 16 : 10;
+    o.max_meth = 4;
+    if (r.chance(0.45)) {
+        HistOpts h;
+        h.b = o;
+        h.min_steps = 2;
+        h.max_steps = 9;
+        h.p_check = 0.3;
+        p = gen_history("C13", seed, tier, h, "");
+    } else {
+        if (r.chance(0.4)) {
+            // lattices under multiple inheritance: v-tables that do not start
+            // at slot 0, classes without any method
+            static const int fams[] = {F_DAG, F_JOIN, F_LADDER, F_DIAMONDS,
+                                       F_WIDE};
+            o.family = fams[r.below(5)];
+            o.min_cls = 4;
+            o.root_bias = 0.3;
+        }
+        p = gen_basic("C13", seed, tier, o);
+    }
+    p.profile += "/encode-decode";
+    if (r.chance(0.5))
+        for (auto& rec : p.recs)
+            if (rec.kind == RK_DEF)
+                rec.nonext = 1;
+    // the last update is the one the generator program encodes
+    int last_up = -1, last_ck = -1;
+    for (int i = 0; i < (int)p.events.size(); ++i) {
+        if (p.events[i].op == OP_UPDATE)
+            last_up = i;
+        if (p.events[i].op == OP_CHECK)
+            last_ck = i;
+    }
+    if (last_up < 0 || last_ck < last_up)
+        return p;
+    p.events.resize(last_ck + 1);
+    p.events[last_up].encode = 1;
+    p.events[last_up].hash_budget = 0;
+    p.events[last_up].alloc_fail_at = -1;
+    p.events[last_up].alloc_fail_from_end = -1;
+    // catalogs at that point, in order
+    std::vector<int> classes, methods;
+    std::map<int, std::vector<int>> defs;
+    for (auto& e : p.events) {
+        if (e.op == OP_LOAD)
+            for (int ri : e.recs) {
+                auto& rec = p.recs[ri];
+                if (rec.kind == RK_CLASS)
+                    classes.push_back(ri);
+                else if (rec.kind == RK_METHOD)
+                    methods.push_back(ri);
+                else
+                    defs[rec.meth].push_back(ri);
+            }
+        if (e.op == OP_UNLOAD)
+            for (int ri : e.recs) {
+                auto& rec = p.recs[ri];
+                auto drop = [&](std::vector<int>& v) {
+                    v.erase(std::remove(v.begin(), v.end(), ri), v.end());
+                };
+                if (rec.kind == RK_CLASS)
+                    drop(classes);
+                else if (rec.kind == RK_METHOD) {
+                    drop(methods);
+                    defs.erase(ri);
+                } else
+                    drop(defs[rec.meth]);
+            }
+    }
+    Event rs;
+    rs.op = OP_RESTART;
+    rs.pol = 0;
+    p.events.push_back(rs);
+    // the consumer's static initialisation: the same catalogs, in the same
+    // order; how the three kinds interleave is free
+    Event ld;
+    ld.op = OP_LOAD;
+    std::vector<std::vector<int>> streams;
+    streams.push_back(classes);
+    streams.push_back(methods);
+    std::vector<std::size_t> pos(2, 0);
+    std::map<int, std::size_t> dpos;
+    std::set<int> loaded_methods;
+    for (;;) {
+        std::vector<int> choices; // 0: class, 1: method, 2+k: def of method k
+        if (pos[0] < classes.size())
+            choices.push_back(0);
+        if (pos[1] < methods.size())
+            choices.push_back(1);
+        for (std::size_t k = 0; k < methods.size(); ++k)
+            if (loaded_methods.count(methods[k]) &&
+                dpos[methods[k]] < defs[methods[k]].size())
+                choices.push_back(2 + (int)k);
+        if (choices.empty())
+            break;
+        int c = choices[r.below(choices.size())];
+        if (c == 0)
+            ld.recs.push_back(classes[pos[0]++]);
+        else if (c == 1) {
+            loaded_methods.insert(methods[pos[1]]);
+            ld.recs.push_back(methods[pos[1]++]);
+        } else {
+            int m = methods[c - 2];
+            ld.recs.push_back(defs[m][dpos[m]++]);
+        }
+    }
+    if (!ld.recs.empty())
+        p.events.push_back(ld);
+    Event dc;
+    dc.op = OP_DECODE;
+    dc.pol = 0;
+    if (r.chance(0.12)) {
+        static const int budgets[] = {1, 1, 2, 3};
+        dc.hash_budget = budgets[r.below(4)];
+        dc.hash_seed = 1 + r.below(1000000);
+    }
+    p.events.push_back(dc);
+    Event ck = p.events[last_ck];
+    p.events.push_back(ck);
+    return p;
+}
+
 bool has_profile(const std::string& prop) {
     static const char* props[] = {"C01", "C02", "C03", "C04", "C05", "C06",
-                                  "C07", "C08", "C09", "C10", "C14", "C15",
-                                  "C17", "C18"};
+                                  "C07", "C08", "C09", "C10", "C12", "C13",
+                                  "C14", "C15", "C17", "C18"};
     for (auto p : props)
         if (prop == p)
             return true;
@@ -1973,6 +2287,10 @@ Plan generate(const std::string& prop, std::uint64_t seed, int tier) {
         return gen_C08(seed, tier);
     if (prop == "C10")
         return gen_C10(seed, tier);
+    if (prop == "C12")
+        return gen_C12(seed, tier);
+    if (prop == "C13")
+        return gen_C13(seed, tier);
     if (prop == "C14")
         return gen_C14(seed, tier);
     if (prop == "C16")
